@@ -42,7 +42,9 @@ class SI:
     __radd__ = __add__
     def __sub__(self, o): return SI(self.e - SI.of(o))
     def __rsub__(self, o): return SI(SI.of(o) - self.e)
-    def __mul__(self, o): return SI(self.e * SI.of(o))
+    def __mul__(self, o):
+        if isinstance(o, ARange): return NotImplemented
+        return SI(self.e * SI.of(o))
     __rmul__ = __mul__
 
 
@@ -67,6 +69,16 @@ class ARange:
 
     def count(self):
         return z3.If(self.hi > self.lo, (self.hi - self.lo + self.step - 1) / self.step, 0)
+
+    # numpy semantics of  k * arange : the progression is scaled (k > 0 assumed by the callers' context: a device count)
+    def __mul__(self, k):
+        kk = SI.of(k)
+        r = ARange(0, 0)
+        n = self.count()
+        r.lo, r.step = self.lo * kk, self.step * kk
+        r.hi = r.lo + n * r.step
+        return r
+    __rmul__ = __mul__
 
 
 class FakeNP:
